@@ -597,7 +597,17 @@ fn statics_scenario(r: &mut Rng, twin: usize) -> Scenario {
         steps.push(Step::Write(rel.clone(), rand_content(r)));
         match r.below(3) {
             0 => script.push(SOp::F(rel)),
-            1 => script.push(SOp::A(rel, format!("{}{}", r.pick(&["", "to/", "v1.2/x/"]), n))),
+            1 => {
+                let pre = *r.pick(&["", "to/", "v1.2/x/"]);
+                script.push(SOp::A(rel.clone(), format!("{pre}{n}")));
+                if r.chance(1, 3) {
+                    // the same file published under names that extend / truncate the first one
+                    script.push(SOp::A(rel.clone(), format!("{pre}{n}.map")));
+                    if n.len() > 2 {
+                        script.push(SOp::A(rel, format!("{pre}{}", &n[..n.char_indices().nth(n.chars().count() / 2).map_or(1, |x| x.0).max(1)])));
+                    }
+                }
+            }
             _ => script.push(SOp::B(format!("virtual/{n}"), rand_content(r))),
         }
     }
@@ -606,6 +616,16 @@ fn statics_scenario(r: &mut Rng, twin: usize) -> Scenario {
         for _ in 0..r.below(4) {
             let n = *r.pick(STATIC_NAMES);
             steps.push(Step::Write(format!("as/{n}"), rand_content(r)));
+            // verbatim URL names where one is a proper prefix of another (`app.js`, `app.js.map`, `app.js.map.gz`)
+            if r.chance(1, 3) {
+                steps.push(Step::Write(format!("as/{n}.map"), rand_content(r)));
+                if r.chance(1, 2) {
+                    steps.push(Step::Write(format!("as/{n}.map.gz"), rand_content(r)));
+                }
+                if r.chance(1, 2) {
+                    steps.push(Step::Write(format!("as/{n}~"), rand_content(r)));
+                }
+            }
         }
         if r.chance(1, 2) {
             steps.push(Step::Mkdir("as/inner".into()));
